@@ -5,7 +5,8 @@
    Guards, TRANSM_THRESH, task order, capacities, slot formulas, start values and
    the signalling condition are regenerated from /repo/src (Gen/SchedCTab.v). *)
 From Coq Require Import List NArith Arith Bool Lia.
-From LBZ Require Import SchedC.SchedCIface Gen.SchedCTab SchedC.Pool SchedC.PoolLemmas SchedC.SchedC SchedC.SchedCInv.
+From LBZ Require Import SchedC.SchedCIface Gen.SchedCTab SchedC.Pool SchedC.PoolLemmas SchedC.SchedC SchedC.SchedCInv
+  SchedC.Tiling SchedC.SchedCOrder SchedC.SchedCLive.
 Import ListNotations.
 
 Section C11.
@@ -40,4 +41,58 @@ Section C11.
     coll_q s = [] /\ trans_q s = [] /\ reord_q s = [] /\ output_q s = [] /\ unfinished s = None /\
     collect_token s = true /\ eof s = true.
   Proof. exact (@c11_final Data Enc data_len enc_empty collect). Qed.
+
+  (* blocks are handed to the writer in stream order: the handed blocks (written or
+     queued for writing) form the gap-free chain 0.0 -> ... -> [order] (each block
+     starts where the previous one ends) with strictly increasing positions; by
+     C03_confluent this chain is a prefix of the block sequence of every complete run.
+     PARTIAL: default mode; the --sequential case is not proved (missing: the
+     invariant tying unfinished_work.next to the head of coll_q). *)
+  Theorem C11_order_partial : forall n lvl inp s, reachable n false lvl inp s ->
+    chain pos0 (map (@iv_wb Enc) (@handed Data Enc s)) (order s) /\
+    Sorted.StronglySorted (fun a b => plt (wb_pos a) (wb_pos b)) (@handed Data Enc s).
+  Proof. exact (@c11_order_default Data Enc data_len enc_empty collect). Qed.
+
+  (* nothing is lost on the way: a terminal state has handed over every block of the
+     input that was read (default mode) *)
+  Theorem C11_final_order_partial : forall n lvl inp s, 1 <= n -> reachable n false lvl inp s -> final s = true ->
+    order s = mkpos (next_id s) 0 /\ output_q s = [] /\ @handed Data Enc s = written s.
+  Proof. exact (@final_order_default Data Enc data_len enc_empty collect). Qed.
+
+  (* whenever the mutex is free and a task is ready (or the process has finished and
+     a worker has not exited yet), a signal is pending for a waiting worker or some
+     worker is running unlocked code / has not started: no wake-up is lost.
+     Both modes. *)
+  Theorem C11_no_lost_wakeup : forall n u lvl inp s, 1 <= n -> reachable n u lvl inp s ->
+    lock s = None ->
+    (is_some (next_task s) = true \/
+     (finished s = true /\ sumf (@exited_of Data Enc) (workers s) < length (workers s))) ->
+    0 < wakeups s \/ 0 < sumf (@awake_of Data Enc) (workers s).
+  Proof. exact (@c11_no_lost_wakeup Data Enc data_len enc_empty collect). Qed.
+
+  (* C11_progress / C11_terminates (deadlock freedom, decreasing measure): NOT proved.
+     Missing: preservation of the three auxiliary invariants of SchedC/SchedCLive.v
+     (queues sorted by position, slot reserve >= TRANSM_THRESH, a unit holder below
+     min(coll_q) when work_units = 0) and the quiescent-state case analysis of
+     DESIGN.md section 4/C11; liveness of the implementation is supported only by the
+     watchdog-timed runs of checks/c11.py (testing). *)
 End C11.
+
+(* non-vacuity: two workers, one chunk that is split into two blocks (the remainder
+   has 20000 bytes after the first collect()), round-robin interleaving: the run is
+   complete, both blocks are written in order, everything is returned *)
+Definition ex_data := (N * list N)%type.
+Definition ex_len (d : ex_data) : N := fst d.
+Definition ex_collect (e : unit) (d : ex_data) : unit * ex_data * bool :=
+  match snd d with [] => (e, (0%N, []), true) | l :: r => (e, (l, r), true) end.
+
+Example C11_example_run :
+  let s := rr ex_len tt ex_collect 40 [TM; TS; TR; TW 0; TW 1]
+              (init unit 2 false 1%N [(100000%N, [20000%N; 0%N])]) in
+  reachable ex_len tt ex_collect 2 false 1%N [(100000%N, [20000%N; 0%N])] s /\
+  final s = true /\ bad s = false /\
+  map (@wb_pos unit) (written s) = [mkpos 0 0; mkpos 0 1] /\ order s = mkpos 1 0 /\
+  work_units s = 2 /\ in_slots s = 4 /\ out_slots s = 6.
+Proof.
+  split; [apply rr_reach; constructor|]. vm_compute. repeat split; reflexivity.
+Qed.
